@@ -31,6 +31,10 @@ fn full_vocab() -> Vec<String> {
         // 3- and 4-byte characters, a control symbol made of one, the predefined \\outer and empty macros (see
         // setup_vm), the names of the empty and the blank-only file
         "→", "𝔸", "\\→", "\\o", "\\e", "e", "w",
+        // active characters in every role a control sequence has (see setup_vm): `~` undefined, `?` a macro,
+        // `@` an alias of a primitive, `|` an \\outer macro, `!` made active by the program and never defined;
+        // control sequences with a single non-letter name
+        "?", "@", "|", "!", "\\catcode`\\!=13 ", "\\%", "\\\\", "\\1", "\\~",
         // numbers whose length is the hazard: 17 / 18 / 19 / 30 fraction digits, 21 integer digits,
         // octal and hexadecimal constants at and beyond 2^31-1
         "1.12345678901234567", "1.123456789012345678", ".9999999999999999999pt", "0.123456789012345678901234567890", "100000000000000000000", "'17777777777", "'20000000000", "'777777777777", "\"7FFFFFFF", "\"80000000", "\"FFFFFFFFF",
@@ -42,7 +46,7 @@ fn full_vocab() -> Vec<String> {
 fn core_vocab() -> Vec<String> {
     [
         "\\count", "\\dimen", "\\skip", "\\toks", "\\the", "\\def", "\\let", "\\global", "\\advance", "\\multiply", "\\divide", "\\catcode", "\\chardef", "\\countdef", "\\ifnum", "\\ifcase", "\\else", "\\fi", "\\or", "\\expandafter", "\\noexpand",
-        "\\read", "\\input", "\\openin", "\\ifeof", "\\endinput", "\\a", "{", "}", "#", "1", "-", "=", " ", "2147483647", "f", "by", "to", "pt", "é", "1.123456789012345678", "-2147483647", "57343", "\\o", "\\e",
+        "\\read", "\\input", "\\openin", "\\ifeof", "\\endinput", "\\a", "{", "}", "#", "1", "-", "=", " ", "2147483647", "f", "by", "to", "pt", "é", "1.123456789012345678", "-2147483647", "57343", "\\o", "\\e", "~", "?",
     ]
     .iter()
     .map(|s| s.to_string())
@@ -186,6 +190,14 @@ const WRAPPERS: [(&str, &str); 16] = [
     ("\n", ""),
     ("{", ""),
 ];
+/// Scanning positions in front of which the input (or a line) ends with the escape character while
+/// \endlinechar is -1: the lexer then delivers the control sequence with the EMPTY name.
+const EMPTY_CS_CONTEXTS: [&str; 40] = [
+    "", "\\count 1=`", "\\catcode`", "\\catcode`a=", "\\ifnum`", "\\ifnum 1<`", "\\ifnum 1<", "\\ifodd", "\\ifcase", "\\def", "\\def\\a#1", "\\gdef", "\\let", "\\let\\a=", "\\the", "\\input ", "\\input f", "\\openin 1 ",
+    "\\expandafter", "\\expandafter\\a", "\\noexpand", "\\chardef", "\\chardef\\a=", "\\mathchardef", "\\countdef", "\\toksdef", "\\global", "\\long", "\\read 1 to", "\\advance", "\\advance\\count 1 by", "\\toks 1=", "\\count",
+    "\\dimen 1=1", "\\skip 1=1pt plus", "\\newInt", "\\newIntArray", "\\def\\a#1{#1}\\a", "\\iffalse", "{",
+];
+const EMPTY_CS_ENDINGS: [&str; 5] = ["\\", "\\\n", "\\\nx", "\\\n\\relax x", "\\\n=1 "];
 fn mini_vocab() -> Vec<String> {
     ["\\the", "\\def", "\\a", "{", "}", "#", "1", "-", "2147483647", "é", "\\fi", "\\read"].iter().map(|s| s.to_string()).collect()
 }
@@ -250,6 +262,10 @@ fn seeds() -> Vec<String> {
         r"\global\long\outer\def\a#1{#1}\outer\global\long\gdef\b{}\long\global\outer\def\c{}\a\b",
         r"\long\global\count 1=2 \global\global\advance\count 1 by 1 \outer\count 1=1 \global\let\a=\b \long\let\a=\b ",
         r"\def\a#1#2{(#1#2)}\def\b{x}\def\c{y}\expandafter\expandafter\expandafter\a\expandafter\b\c",
+        // active characters in the roles of control sequences
+        r"{\def~{x}~}~ \let\a=~ \a \the~ \expandafter\a~ \expandafter~\a",
+        r"\catcode`\!=13 ! \def!{y}! \let!=\undefined ! \let\b=! \b",
+        r"\count 1=`~ \count 1=`? \ifnum`|=`@ a\fi \def\a~{}\a~ \a? ?@| \noexpand~ \noexpand?",
         // infinite orders other than fil
         r"\skip 1=1pt plus 2fill minus 3filll \advance\skip 1 by \skip 1 \multiply\skip 1 by -2 \divide\skip 1 by 3 \the\skip 1 ",
         // faults inside collecting loops: \outer macro and \par in parameter text, argument, skipped branch, token list
@@ -381,6 +397,9 @@ impl Families {
             "resource" => self.resource.len() as u64 * 4,
             "nonascii-lines" => (vcore::strings_upto(self.core.len() as u64, self.lines_core_len) + self.lines_trunc_cum.last().unwrap()) * WRAPPERS.len() as u64 * 4,
             "stdlib-state" => self.lines_trunc_cum.last().unwrap() * 4,
+            "strict-short" => vcore::strings_upto(self.full.len() as u64, 2) * 4,
+            // contexts x endings, then every seed truncation with the first ending; x {recording, strict} handlers x 4 modes
+            "empty-cs" => ((EMPTY_CS_CONTEXTS.len() * EMPTY_CS_ENDINGS.len()) as u64 + self.lines_trunc_cum.last().unwrap()) * 8,
             "extreme-arith" => self.extreme.len() as u64 * 4,
             "extreme-arith-dev1" => *self.extreme_cum.last().unwrap(),
             _ => 0,
@@ -433,6 +452,28 @@ impl Families {
                     join(&self.seeds[sd][..=k])
                 };
                 (mode, format!("{}{}{}", w.0, body, w.1))
+            }
+            "strict-short" => {
+                let mut src = String::new();
+                for d in vcore::nth_string(self.full.len() as u64, idx / 4) {
+                    append_tok(&mut src, &self.full[d as usize]);
+                }
+                ((idx % 4) as usize, src)
+            }
+            "empty-cs" => {
+                let j = idx / 8;
+                let nc = (EMPTY_CS_CONTEXTS.len() * EMPTY_CS_ENDINGS.len()) as u64;
+                let tail = if j < nc {
+                    format!("{}{}", EMPTY_CS_CONTEXTS[(j / EMPTY_CS_ENDINGS.len() as u64) as usize], EMPTY_CS_ENDINGS[(j % EMPTY_CS_ENDINGS.len() as u64) as usize])
+                } else {
+                    let t = j - nc;
+                    let sd = match self.lines_trunc_cum.binary_search(&t) {
+                        Ok(i) => i,
+                        Err(i) => i - 1,
+                    };
+                    format!("{}\\", join(&self.seeds[sd][..=(t - self.lines_trunc_cum[sd]) as usize]).trim_end())
+                };
+                ((idx % 4) as usize, format!("\\endlinechar=-1 \n{tail}"))
             }
             "stdlib-state" => {
                 let j = idx / 4;
@@ -490,7 +531,8 @@ fn setup_vm() -> Box<vtex::Vm> {
         fs.add("w.tex", " \n\n  \n");
     }
     // two macros exist before every program: an \outer one and an empty one
-    let _ = vtex::run(&mut vm, "\\outer\\def\\o{}\\def\\e{}");
+    // and three active characters: a macro, an alias of a primitive, an \outer macro (`~` stays undefined)
+    let _ = vtex::run(&mut vm, "\\outer\\def\\o{}\\def\\e{}\\catcode`\\?=13 \\def?{q}\\catcode`\\@=13 \\let@=\\relax \\catcode`\\|=13 \\outer\\def|{}");
     vm.clear_sources();
     vm.state.env.steps.set(0);
     vm.state.env.errs.set(0);
@@ -543,13 +585,18 @@ struct Verdict {
 }
 
 fn run_case(mode: usize, body: &str) -> Verdict {
+    run_case_with::<vtex::H>(mode, body)
+}
+/// `Hd` = vtex::H (undefined commands are recorded) or vtex::HStrict (the VM's default handler: an
+/// undefined control sequence or active character is the fatal UndefinedCommandError).
+fn run_case_with<Hd: vtex::texlang::vm::Handlers<vtex::HState>>(mode: usize, body: &str) -> Verdict {
     let src = format!("{}{}", MODES[mode], body);
     let mut v = Verdict { class: String::new(), fail: None, known: None, cutoff: false, reached_primitive: body.contains('\\'), errors_recovered: 0, nonascii_error: false };
     let errs = std::cell::Cell::new(0u64);
     let r = vcore::catch(|| {
         let mut vm = setup_vm();
         let _ = vm.push_source("t.tex", src.clone());
-        let r = vm.run::<vtex::H>();
+        let r = vm.run::<Hd>();
         errs.set(vm.state.env.errs.get());
         let outcome: Result<(), (String, String)> = match r {
             Ok(()) => Ok(()),
@@ -578,7 +625,7 @@ fn run_case(mode: usize, body: &str) -> Verdict {
         vm.state.env.steps.set(0);
         vm.state.env.errs.set(0);
         let _ = vm.push_source("u.tex", SECOND);
-        let again = vm.run::<vtex::H>().map_err(|e| (e.error.title(), e.stack_trace.len(), depth));
+        let again = vm.run::<Hd>().map_err(|e| (e.error.title(), e.stack_trace.len(), depth));
         let out2 = vm.state.env.out.borrow().concat();
         (outcome, again, out2)
     });
@@ -742,7 +789,14 @@ fn worker(family: &str, lo: u64, hi: u64, progress: &str, quick: bool) -> ! {
                     }
                 }
                 let (mode, body) = fams.program(&family, idx);
-                let v = if family == "stdlib-state" { run_case_stdlib(mode, &body) } else { run_case(mode, &body) };
+                let strict = family == "strict-short" || (family == "empty-cs" && (idx / 4) % 2 == 1);
+                let v = if family == "stdlib-state" {
+                    run_case_stdlib(mode, &body)
+                } else if strict {
+                    run_case_with::<vtex::HStrict>(mode, &body)
+                } else {
+                    run_case(mode, &body)
+                };
                 w.evals += 1;
                 // vacuity counters, from the program text
                 for (name, hit) in [
@@ -754,6 +808,12 @@ fn worker(family: &str, lo: u64, hi: u64, progress: &str, quick: bool) -> ! {
                     ("program_has_cr_lf", body.contains("\r\n")),
                     ("program_starts_inside_a_group", body.starts_with('{')),
                     ("program_on_stdlib_state", family == "stdlib-state"),
+                    // \endlinechar=-1 on line 1, and the input or a later line ends with one escape character
+                    // directly after a scanning primitive
+                    ("empty_named_control_sequence_reaches_a_scanner", family == "empty-cs" && body.len() > "\\endlinechar=-1 \n\\".len() + 1 && !body.starts_with("\\endlinechar=-1 \n\\")),
+                    // default (strict) undefined-command handler and the first token is the undefined active character
+                    ("undefined_active_character_executed", (strict || family == "stdlib-state") && (body.starts_with('~') || body.starts_with("{\\def~{x}~}~"))),
+                    ("program_uses_active_macro_or_alias", body.contains('?') || body.contains('@') || body.contains('|')),
                     ("program_reads_empty_or_blank_file", body.contains("\\input e") || body.contains("\\input w")),
                 ] {
                     if hit {
@@ -1108,8 +1168,10 @@ fn main() {
     let (nf, nc) = (fams.full.len(), fams.core.len());
     run_family(&mut ctx, &fams, "short-full", &format!("every string of <= {} tokens over the full vocabulary ({nf} tokens: every installed primitive, braces, specials, numbers at every limit, non-ASCII) x 4 interaction modes", fams.short_full_len));
     run_family(&mut ctx, &fams, "short-core", &format!("every string of <= {} tokens over a {nc}-token core (registers, \\the, definitions, conditionals, \\expandafter, \\read/\\input) x 4 interaction modes", fams.short_core_len));
-    run_family(&mut ctx, &fams, "seed-dev1", &format!("{} seeds (the repository's all_error_cases + 45 idioms), unchanged and with every single deletion / substitution / insertion of a token from a {}-token vocabulary at every position, x 4 interaction modes", fams.seeds.len(), fams.dev1_vocab.len()));
+    run_family(&mut ctx, &fams, "seed-dev1", &format!("{} seeds (the repository's all_error_cases + 48 idioms), unchanged and with every single deletion / substitution / insertion of a token from a {}-token vocabulary at every position, x 4 interaction modes", fams.seeds.len(), fams.dev1_vocab.len()));
     run_family(&mut ctx, &fams, "nonascii-lines", &format!("every core string of <= {} tokens and every non-empty truncation of every seed (the input ends inside the construct that is open there), each wrapped in {} placements: multi-byte text (2-, 3- and 4-byte characters on one or several earlier lines, earlier on the same line, later on the same line, on later lines) and plain endings / beginnings (as is, final newline, CR LF, trailing blank lines, leading blank line, inside an unclosed group) x 4 interaction modes", fams.lines_core_len, WRAPPERS.len()));
+    run_family(&mut ctx, &fams, "strict-short", &format!("every string of <= 2 tokens over the full vocabulary ({nf} tokens) x 4 interaction modes under the VM's default undefined-command handler (HStrict): an undefined control sequence or active character is the fatal UndefinedCommandError"));
+    run_family(&mut ctx, &fams, "empty-cs", &format!("\\endlinechar=-1 on line 1, then {} scanning positions x {} endings in which the input or a line ends with the escape character (the control sequence with the empty name), and every non-empty truncation of every seed followed by the escape character; x recording / default handlers x 4 interaction modes", EMPTY_CS_CONTEXTS.len(), EMPTY_CS_ENDINGS.len()));
     run_family(&mut ctx, &fams, "stdlib-state", "every non-empty truncation of every seed x 4 interaction modes on the repository's own StdLibState with DefaultHandlers (the glue layer named in the property's file list; no harness hooks)");
     run_family(&mut ctx, &fams, "extreme-arith", &format!("{} programs x 4 interaction modes: a \\count, a \\dimen, and the width / stretch / shrink of a \\skip driven to exactly -2^31 and to 2^31-1 by \\advance wrap-around, then every arithmetic primitive with each operand of -1, 0, 1, 2, 2^31-1, -2^31 (from another register), and 29 coercion contexts (assignments with signs, fractions and units, glue components, conditionals, \\the, register indices, operands of \\advance/\\multiply/\\divide on other registers)", fams.extreme.len()));
     run_family(&mut ctx, &fams, "extreme-arith-dev1", &format!("the same {} programs with every single deletion / substitution / insertion of a token from a {}-token vocabulary at every position, scroll mode", fams.extreme.len(), fams.extreme_vocab.len()));
@@ -1131,6 +1193,9 @@ fn main() {
         ("program_has_cr_lf", "CR LF line ending"),
         ("program_starts_inside_a_group", "the whole program runs inside an unclosed group"),
         ("program_on_stdlib_state", "a run on the repository's StdLibState"),
+        ("empty_named_control_sequence_reaches_a_scanner", "with \\endlinechar=-1 a line or the input ends with the escape character after a scanning primitive: the empty-named control sequence"),
+        ("undefined_active_character_executed", "an undefined active character reaches the main loop under the VM's default undefined-command handler"),
+        ("program_uses_active_macro_or_alias", "an active character that is a macro, an alias of a primitive or an \\outer macro"),
         ("program_reads_empty_or_blank_file", "\\input of an empty / blank-only file"),
     ] {
         ctx.require(c, m);
